@@ -410,6 +410,57 @@ pub fn run(rep: &mut Report, thorough: bool) {
                 &mut rep.sink,
             );
             rep.stage(&format!("events-{}", tag), "corpus + truncations + header-field values + selectors, events of every frame parsed and compared with the reference trace", frames.len() as u64, t0);
+            // histories: every sequence of length <= L over the TCP alphabet of one flow (SYN, data
+            // with right / wrong acknowledgement numbers, partial and complete requests of several
+            // protocols, FIN|ACK, RST, ...) and the noise frames; the events of EVERY frame of the
+            // sequence are checked (the balance must not depend on the connection state)
+            if lists || thorough {
+                let t0 = std::time::Instant::now();
+                let fa = flow4(40000, 80);
+                let ca = cookies.get(&key_of(&fa)).copied().unwrap_or(0);
+                let mut alpha: Vec<Vec<u8>> = crate::props::c07::tcp_events("A", &fa, ca, true).into_iter().map(|e| e.frame).collect();
+                alpha.extend(crate::props::c07::noise_events().into_iter().map(|e| e.frame));
+                let na = alpha.len() as u64;
+                let depth: u32 = if thorough { 3 } else { 2 };
+                let total: u64 = (1..=depth).map(|l| na.pow(l)).sum();
+                let hstage = format!("event-histories-{}", tag);
+                let opts = RunOpts::new(&hstage).stateful().chunk(64).no_monitor();
+                let cfgh = cfg.clone();
+                engine::run(
+                    &cfg,
+                    total,
+                    &opts,
+                    |mut i| {
+                        let mut l = 1;
+                        while i >= na.pow(l) {
+                            i -= na.pow(l);
+                            l += 1;
+                        }
+                        let mut v = Vec::new();
+                        for _ in 0..l {
+                            v.push(Cmd::Frame(alpha[(i % na) as usize].clone()));
+                            i /= na;
+                        }
+                        v
+                    },
+                    |it: &Item, sk: &mut Sink| {
+                        for (k, (c, o)) in it.cmds.iter().zip(it.outs.iter()).enumerate() {
+                            if let Cmd::Frame(f) = c {
+                                sk.count("frames", 1);
+                                if o.panicked {
+                                    sk.violation(Violation { prop: "C01".into(), key: format!("panic:{}", engine::panic_site(&o.text)), what: o.text.clone(), cfg: cfgh.clone(), cmds: it.cmds[..=k].to_vec(), idx: it.idx, stage: "event-histories".into() });
+                                    continue;
+                                }
+                                if let Some((key, what)) = check_frame(&cfgh, f, o) {
+                                    sk.violation(Violation { prop: "C20".into(), key, what: format!("frame {} of a history: {}", k, what), cfg: cfgh.clone(), cmds: it.cmds[..=k].to_vec(), idx: it.idx, stage: "event-histories".into() });
+                                }
+                            }
+                        }
+                    },
+                    &mut rep.sink,
+                );
+                rep.stage(&hstage, &format!("every sequence of length 1..{} over {} frames (TCP alphabet of one flow + noise), events of every frame checked", depth, na), total, t0);
+            }
         }
     }
     // the logger must not print anything when none is configured
